@@ -61,7 +61,12 @@ func buildRacer(root string) (string, error) {
 		return "", err
 	}
 	bin := filepath.Join(work, "racer")
-	cmd := exec.Command("go", "build", "-race", "-o", bin, "./racer")
+	args := []string{"build", "-race"}
+	if mf := os.Getenv("VERIF_MODFILE"); mf != "" {
+		args = append(args, "-modfile="+mf) // the same library tree bin/check built the harness against
+	}
+	args = append(args, "-o", bin, "./racer")
+	cmd := exec.Command("go", args...)
 	cmd.Dir = filepath.Join(root, "harness")
 	cmd.Env = goEnv()
 	out, err := cmd.CombinedOutput()
